@@ -18,7 +18,11 @@ EXPLANATION = (
     "segments of the untransformed decomposition, never from scalar radii/rotation derived from the matrix. R02.6 "
     "coupled-field invariant: if the arc evaluators use the orthogonal-axes parametrisation (rotation from one axis "
     "vector, radii as lengths), every general-matrix update of the two axis points must be followed by a joint "
-    "re-normalisation. Not decided: pointwise equality for arcs (values); R02.6 is the static shadow of that defect."
+    "re-normalisation. "
+    "R02.7 distinct point objects: in-place updates (*= on each stored point) are sound only if no two point fields of one "
+    "segment are the same object; every constructor branch of a segment class must wrap each stored point in its own Point(...) (a "
+    "chained assignment or a bare parameter makes one object be multiplied twice). "
+    "Not decided: pointwise equality for arcs (values); R02.6 is the static shadow of that defect."
 )
 ASSUMPTIONS = [
     "Matrix.point_in_matrix_space / matrix_multiply are the SVG definitions (decided in C04).",
